@@ -145,6 +145,13 @@ def gen_jobs(tier, seed):
             methods.append({"id": "m9", "prio": 0, "reg": 9, "pos": [cls(1)], "reqpos": 1, "kwn": ["k"], "kwt": [cls(1)], "kwreq": [False], "body": "leaf"})
             calls = [{"pos": [a], "kw": {"k": b}} for a in ("i1", "sa") for b in NAMES] + [{"pos": ["i1"], "kw": {}}]
         jobs.append({"id": f"C10-{q}", "methods": methods, "calls": calls})
+    # the recorded rank shape (KF-pull-rank), always present: the dependent method is a candidate for (int, int) but its
+    # condition fails; it still hides the (int, object) method from the comparison with (object, int)
+    def mm(j, pos):
+        return {"id": f"m{j}", "prio": 0, "reg": j, "pos": pos, "reqpos": 2, "kwn": [], "kwt": [], "kwreq": [], "body": "leaf"}
+
+    jobs.append({"id": f"C10-{n}", "calls": [["i1", "i2"]],
+                 "methods": [mm(1, [{"k": "dep", "bound": cls(2), "holds": []}, cls(1)]), mm(2, [cls(1), cls(2)]), mm(3, [cls(2), cls(1)])]})
     return jobs
 
 
